@@ -270,6 +270,9 @@ def strat_rounds(tier):
     def with_limit(limit):
         return st.fixed_dictionaries({
             "limit": st.just(limit),
+            # cores that are in the tree already are added again (a caller
+            # that merges overlapping target sets need not filter them)
+            "readd": st.booleans(),
             "rounds": st.lists(st.lists(piece_strategy("quick", limit),
                                         min_size=1, max_size=3),
                                min_size=2, max_size=4)})
@@ -289,7 +292,13 @@ def check_rounds(case):
         with sut("add_core"):
             for (x, y), cores in sorted(new.items()):
                 for p in sorted(cores):
-                    if p not in so_far.get((x, y), ()):
+                    if case.get("readd") or \
+                            p not in so_far.get((x, y), ()):
+                        tree.add_core(x, y, p)
+            if case.get("readd") and i % 2:
+                # ... and once more, chip by chip in another order
+                for (x, y), cores in sorted(new.items(), reverse=True):
+                    for p in sorted(cores):
                         tree.add_core(x, y, p)
         for chip, cores in new.items():
             so_far.setdefault(chip, set()).update(cores)
